@@ -80,7 +80,7 @@ def cmd_confirm(name):
     def build_and_demo(tag):
         rc, out = sh("/tmp/mut/build.sh %s" % wt, timeout=3000)
         passed = re.search(r"\[  PASSED  \] (\d+) tests", out)
-        failed = re.findall(r"\[  FAILED  \] (\S+)", out)
+        failed = [x for x in re.findall(r"\[  FAILED  \] (\S+)", out) if "." in x]
         res[tag + "_suite"] = {"passed": int(passed.group(1)) if passed else None, "failed": sorted(set(failed))}
         rc, out = sh("g++ -std=c++17 -O1 -w -I%s/src -I%s/_build %s %s/_build/libdraco.a -lpthread -o %s" % (wt, wt, demo_src, wt, demo))
         if rc != 0:
